@@ -10,6 +10,7 @@ import (
 	psqlerr "github.com/jeroenrinzema/psql-wire/errors"
 
 	"github.com/jackc/pgx/v5/pgtype"
+	"github.com/lib/pq/oid"
 )
 
 // ---------------------------------------------------------------------------
@@ -26,6 +27,9 @@ import (
 // different connections that touch disjoint mutable state commute, so every
 // interleaving is equivalent to serving them one after the other.
 // ---------------------------------------------------------------------------
+// vIsoQuery is the text of the statement the two connections of H15 prepare.
+var vIsoQuery = []byte("q")
+
 func vConnTraffic(user []byte, name []byte, extended, simple, auth bool) []byte {
 	sync := vMsgBytes('S', nil)
 	in := vStartup(vKV([]byte("user"), user))
@@ -34,7 +38,7 @@ func vConnTraffic(user []byte, name []byte, extended, simple, auth bool) []byte 
 	}
 	if extended {
 		in = vCat(in,
-			vMsgBytes('P', vCat(vCStr(name), vCStr([]byte("q")), vU16(0))),
+			vMsgBytes('P', vCat(vCStr(name), vCStr(vIsoQuery), vU16(0))),
 			vMsgBytes('B', vCat(vCStr(name), vCStr(name), vU16(0), vU16(0), vU16(0))),
 			vMsgBytes('D', vCat([]byte{'S'}, vCStr(name))),
 			vMsgBytes('E', vCat(vCStr(name), vU32(0))), sync)
@@ -91,11 +95,31 @@ func VerifH15() {
 		kept = NewStatement(run, WithColumns(vTextColumns(st[0].cols)))
 		vReach("one-prepared-statement-for-all-connections")
 	}
+	// PARSEPARAMS=1: the handler asks the library's ParseParameters helper for
+	// the statement's parameters and fills in the types it knows — which depend
+	// on the connection — in the list it was handed, as the helper's result is
+	// the caller's to use
+	withHelper := vParam("PARSEPARAMS", 0) == 1
+	if withHelper {
+		vIsoQuery = []byte("$1")
+	} else {
+		vIsoQuery = []byte("q")
+	}
 	parse := func(ctx context.Context, query string) (PreparedStatements, error) {
-		me := st[RemoteAddress(ctx).(vAddr).id]
+		id := RemoteAddress(ctx).(vAddr).id
+		me := st[id]
 		me.parses++
 		if kept != nil {
 			return Prepared(kept), nil
+		}
+		if withHelper {
+			params := ParseParameters(query)
+			for i := range params {
+				if id == 0 {
+					params[i] = oid.T_int4
+				}
+			}
+			return Prepared(NewStatement(run, WithColumns(vTextColumns(me.cols)), WithParameters(params))), nil
 		}
 		return Prepared(NewStatement(run, WithColumns(vTextColumns(me.cols)))), nil
 	}
@@ -115,6 +139,9 @@ func VerifH15() {
 		opts = append(opts, ExtendTypes(func(m *pgtype.Map) {}))
 	}
 	withAuth := nondetBool() // configuration: clear-text password authentication
+	if vParam("AUTHONLY", 0) == 1 {
+		vAssume(withAuth)
+	}
 	authOK := [2]bool{true, true}
 	if withAuth {
 		opts = append(opts, SessionAuthStrategy(ClearTextPassword(func(ctx context.Context, db, user, pw string) (context.Context, bool, error) {
